@@ -33,6 +33,7 @@ type plainMsg struct {
 }
 
 func runDead(rc *core.RunCtx) {
+	const own = "C09"
 	setKnobs(rc)
 	g := simrt.G()
 	env := NewEnv(rc)
@@ -52,14 +53,14 @@ func runDead(rc *core.RunCtx) {
 	env.Spawn(stoppedSpec)
 	rc.PostRun = func(res *simrt.Result) {
 		if res.Crash != nil && !res.Crash.Harness {
-			rc.Violate("send-panicked/"+crashSite(res.Crash), "un-recovered panic in task %q: %s (raised in %s)", res.Crash.Task, core.FirstLine(res.Crash.Value), res.Crash.Origin)
+			rc.Violate2(own,"send-panicked/"+crashSite(res.Crash), "un-recovered panic in task %q: %s (raised in %s)", res.Crash.Task, core.FirstLine(res.Crash.Value), res.Crash.Origin)
 		}
 		if res.EndReason == "steps" {
 			feat := "no-stopped-subscriber"
 			if ndead > 0 {
 				feat = "stopped-subscriber"
 			}
-			rc.Violate("unbounded-events/"+feat, "the run did not quiesce within %d scheduler steps after a finite number of sends (%d stopped-but-subscribed monitors): events keep generating events", res.Steps, ndead)
+			rc.Violate2(own,"unbounded-events/"+feat, "the run did not quiesce within %d scheduler steps after a finite number of sends (%d stopped-but-subscribed monitors): events keep generating events", res.Steps, ndead)
 		}
 	}
 	simrt.WaitQuiet(time.Hour)
@@ -153,7 +154,7 @@ func runDead(rc *core.RunCtx) {
 	}
 	simrt.WaitQuiet(time.Hour)
 	if finished != nclients {
-		rc.Violate("send-blocked", "%d of %d sender tasks finished; blocked: %v", finished, nclients, simrt.BlockedTasks())
+		rc.Violate2(own,"send-blocked", "%d of %d sender tasks finished; blocked: %v", finished, nclients, simrt.BlockedTasks())
 	}
 	for _, m := range live {
 		evs := m.Events[baseline[m]:]
@@ -165,17 +166,17 @@ func runDead(rc *core.RunCtx) {
 					if v.Message == s.payload {
 						ndl++
 						if pidStr(v.Target) != pidStr(s.target) {
-							rc.Violate("dead-letter-wrong-target", "%s: DeadLetterEvent names target %s", s, pidStr(v.Target))
+							rc.Violate2(own,"dead-letter-wrong-target", "%s: DeadLetterEvent names target %s", s, pidStr(v.Target))
 						}
 						if pidStr(v.Sender) != pidStr(s.sender) {
-							rc.Violate("dead-letter-wrong-sender", "%s: DeadLetterEvent names sender %s", s, pidStr(v.Sender))
+							rc.Violate2(own,"dead-letter-wrong-sender", "%s: DeadLetterEvent names sender %s", s, pidStr(v.Sender))
 						}
 					}
 				case actor.EngineRemoteMissingEvent:
 					if v.Message == s.payload {
 						nrm++
 						if pidStr(v.Target) != pidStr(s.target) || pidStr(v.Sender) != pidStr(s.sender) {
-							rc.Violate("remote-missing-wrong-fields", "%s: EngineRemoteMissingEvent names target %s sender %s", s, pidStr(v.Target), pidStr(v.Sender))
+							rc.Violate2(own,"remote-missing-wrong-fields", "%s: EngineRemoteMissingEvent names target %s sender %s", s, pidStr(v.Target), pidStr(v.Sender))
 						}
 					}
 				}
@@ -187,15 +188,18 @@ func runDead(rc *core.RunCtx) {
 			switch s.kind {
 			case 0, 4:
 				if ndl != 0 || nrm != 0 {
-					rc.Violate("unexpected-event/"+feat, "%s: monitor %s saw %d dead letters, %d remote-missing events", s, m.Name, ndl, nrm)
+					rc.Violate2(own,"unexpected-event/"+feat, "%s: monitor %s saw %d dead letters, %d remote-missing events", s, m.Name, ndl, nrm)
 				}
 			case 1, 2, 5:
 				if ndl != 1 || nrm != 0 {
-					rc.Violate("dead-letter-count/"+feat, "%s: monitor %s saw %d DeadLetterEvents (want exactly 1) and %d remote-missing events", s, m.Name, ndl, nrm)
+					rc.Violate2(own, "dead-letter-count/"+feat, "%s: monitor %s saw %d DeadLetterEvents (want exactly 1) and %d remote-missing events", s, m.Name, ndl, nrm)
+					if ndl == 0 {
+						rc.Violate2("C12", "lifecycle-event-missing/dead-letter/"+feat, "%s: no DeadLetterEvent reached subscriber %s", s, m.Name)
+					}
 				}
 			case 3:
 				if nrm != 1 || ndl != 0 {
-					rc.Violate("remote-missing-count/"+feat, "%s: monitor %s saw %d EngineRemoteMissingEvents (want exactly 1) and %d dead letters", s, m.Name, nrm, ndl)
+					rc.Violate2(own,"remote-missing-count/"+feat, "%s: monitor %s saw %d EngineRemoteMissingEvents (want exactly 1) and %d dead letters", s, m.Name, nrm, ndl)
 				}
 			}
 		}
@@ -214,7 +218,8 @@ func runDead(rc *core.RunCtx) {
 				}
 			}
 			if n == 0 {
-				rc.Violate("dead-letter-count/event-forwarded-to-stopped-subscriber", "monitor %s never saw a DeadLetterEvent for the events forwarded to the stopped subscriber %s", m.Name, d.Name)
+				rc.Violate2(own, "dead-letter-count/event-forwarded-to-stopped-subscriber", "monitor %s never saw a DeadLetterEvent for the events forwarded to the stopped subscriber %s", m.Name, d.Name)
+				rc.Violate2("C12", "lifecycle-event-missing/dead-letter/event-forwarded-to-stopped-subscriber", "subscriber %s never saw a DeadLetterEvent for the events forwarded to the stopped subscriber %s", m.Name, d.Name)
 			}
 		}
 	}
@@ -244,6 +249,8 @@ func cfgDead(cfg *simrt.Config, tier string) {
 }
 
 func init() {
+	core.Register(&core.Profile{Property: "C12", Name: "dead-letter-events", Weight: 2, Cfg: cfgDead, Run: runDead,
+		Doc: "the dead-letter scenario of C09 (live and stopped-but-subscribed monitors, undeliverable sends of all kinds); oracle for C12: every undeliverable send - including the forwarding of an event to a subscriber that has stopped - has its DeadLetterEvent at every live subscriber"})
 	core.Register(&core.Profile{Property: "C09", Name: "deadletter", Weight: 4, Cfg: cfgDead, Run: runDead,
 		Doc: "one real Engine without remote; 1-2 live monitors and 0-2 monitors that were stopped without unsubscribing; 1-3 concurrent sender tasks sending *struct, string, int and struct values with senders {nil, local, foreign} to nil, never-spawned, stopped, foreign-address and live PIDs; oracle: every undeliverable local send yields exactly one DeadLetterEvent (same target, message, sender) at every live monitor, foreign sends exactly one EngineRemoteMissingEvent and no dead letter, nil/live nothing, every sender returns, and the run quiesces (a finite number of sends produces a finite number of events)",
 		Faults: []string{"subscriber stopped without unsubscribing", "send to nil/unknown/stopped/foreign PID"}})
